@@ -223,7 +223,7 @@ func generate(rng *rand.Rand, tier string) []interface{} {
 	samples := 60
 	maxBig := 300
 	if tier != "quick" {
-		samples, maxBig = 300, 400
+		samples, maxBig = 500, 700
 	}
 	for i := 0; i < samples; i++ {
 		n := 1 + rng.Intn(60)
